@@ -402,3 +402,88 @@ package kv
 //@   ensures sorted: forall j int :: imp(err == nil && 0 <= j && j + 1 < len(result0), result0[j] <= result0[j+1])
 //@   loop 1 invariant forall j int :: imp(0 <= j && j < len(roots), roots[j] != "" && has(s.mergedRoots, roots[j]))
 //@   loop 1 invariant len(roots) == 0 || fresh(roots)
+
+// ---------------------------------------------------------------------------
+// Node encryption (property C18). What is decided here: every slice and array
+// access of the encrypt / decrypt / legacy paths is in bounds for EVERY input
+// (any ciphertext length, truncated or not: an error, never a panic); the
+// ciphertext is a function of (key, plaintext) only (deduplication); and
+// decrypt inverts encrypt given the seal/open law of the assumed primitive.
+// Confidentiality and authentication are properties of the assumed primitives.
+//@ func nonce
+//@   requires 1 <= nonce_len && nonce_len <= 64
+//@   modifies nothing
+//@   ensures err == nil && fresh(result0) && len(result0) == nonce_len && bytes(result0) == blake(bytes(message), nonce_len)
+
+//@ spec encBytes(m string, k string) string = blake(m + k, 24) + sealed(m, blake(m + k, 24), k)
+//@ func encrypt
+//@   requires key != nil
+//@   modifies nothing
+//@   ensures err == nil && fresh(result0) && len(result0) == 24 + len(message) + 16
+//@   ensures deterministic: bytes(result0) == encBytes(bytes(message), bytes(key))
+
+//@ spec decOK(c string, k string) bool = len(c) >= 24 + 16 && openOK(c[24:], c[:24], k)
+//@ func decrypt
+//@   requires key != nil
+//@   modifies nothing
+//@   ensures too-short: imp(len(c) < 24, err != nil)
+//@   ensures opens: imp(decOK(bytes(c), bytes(key)), err == nil && bytes(result0) == opened(bytes(c)[24:], bytes(c)[:24], bytes(key)))
+//@   ensures failed: imp(err != nil, result0 == nil)
+
+// the legacy box format (kept for reading old data): in bounds for every length
+//@ func crypto_secretbox_open_easy
+//@   requires k != nil && len(n) == 24
+//@   modifies nothing
+//@   ensures imp(len(c) < 16, err != nil) && imp(err == nil, fresh(result0) && len(result0) == len(c) - 16) && imp(err != nil, result0 == nil)
+
+//@ func crypto_secretbox_open_detached
+//@   requires k != nil && len(n) == 24 && len(mac) == 16 && len(m) == len(c)
+//@   modifies contents(m)
+//@   loop 1 invariant 0 <= i && i <= mlen0 && mlen0 <= len(m) && mlen0 <= 32 && len(block0) == 64 && fresh(block0)
+//@   loop 2 invariant 0 <= i && i <= mlen0 && mlen0 <= len(m) && mlen0 <= 32 && len(block0) == 64 && fresh(block0)
+
+//@ func (*jencryptor).Encrypt
+//@   requires j != nil
+//@   modifies nothing
+//@   ensures err == nil && len(result0) == 24 + len(value) + 16
+//@ func (*jencryptor).Decrypt
+//@   requires j != nil
+//@   modifies nothing
+//@   ensures imp(len(value) < 24, err != nil)
+
+// decrypt inverts encrypt for every plaintext and key, given the seal/open law
+// of the assumed primitive (first assume clause) and that the nonce has the
+// size it was asked for (second): a lemma over the two verified contracts —
+// encrypt returns encBytes(m, k); decrypt, when decOK, returns opened(...).
+//@ lemma crypto-roundtrip
+//@   any m string
+//@   any k string
+//@   assume openOK(sealed(m, blake(m + k, 24), k), blake(m + k, 24), k) && opened(sealed(m, blake(m + k, 24), k), blake(m + k, 24), k) == m
+//@   assume len(blake(m + k, 24)) == 24 && len(sealed(m, blake(m + k, 24), k)) == len(m) + 16
+//@   show decOK(encBytes(m, k), k) && opened(encBytes(m, k)[24:], encBytes(m, k)[:24], k) == m
+
+// equal plaintext under the same key gives equal ciphertext (deduplication):
+// immediate from encrypt/post@deterministic (the ciphertext is encBytes(m, k))
+//@ lemma crypto-deterministic
+//@   any m1 string
+//@   any m2 string
+//@   any k string
+//@   assume m1 == m2
+//@   show encBytes(m1, k) == encBytes(m2, k)
+
+// the node store wrapper: what is PUT is what Encrypt returned, what is
+// returned is what Decrypt made of the stored bytes; version objects (root/)
+// go through plain Persist objects (toPersist above), never through this.
+//@ func Encryptor.Encrypt
+//@   trusted
+//@   modifies nothing
+//@ func Encryptor.Decrypt
+//@   trusted
+//@   modifies nothing
+//@ func (*persistEncryptor).Store
+//@   requires e != nil && e.encryptor != nil && e.Persist != nil
+//@   modifies puts, lastPutPrefix, lastPutName, lastPutOK
+//@   ensures puts <= old(puts) + 1 && deletes == old(deletes)
+//@ func (*persistEncryptor).Load
+//@   requires e != nil && e.encryptor != nil && e.Persist != nil
+//@   modifies nothing
